@@ -21,6 +21,9 @@ SomeZeroKeys == {{}, {K0}}
 NoPanicKeys == {{}}
 OnePanicKey == {{}} \cup {{k} : k \in Keys}
 K0PanicKey == {{}, {K0}}
+(* nested Gets: which key's constructor fetches which other key first *)
+NoDeps == [k \in Keys |-> NoDep]
+ANeedsB == [k \in Keys |-> IF k = "a" THEN "b" ELSE NoDep]
 (* one or two Gets *)
 MixedPlans == [Procs -> {<<k>> : k \in Keys} \cup {<<k1, k2>> : k1 \in Keys, k2 \in Keys}]
 
